@@ -26,7 +26,7 @@ var c18Names = []string{"a.log", "b.log", "c.log", "x.log.gz", "sub/c.log", "sub
 
 // patterns (relative to the tree root; "./" = given relative, resolved
 // against the process's working directory, which is the tree root)
-var c18Patterns = []string{"*.log", "a*", "[ab].log", "*/*.log", "a.log", "./*.log", "./sub/*.log", "*.log*", "sub/c.log"}
+var c18Patterns = []string{"*.log", "a*", "[ab].log", "*/*.log", "a.log", "./*.log", "./sub/*.log", "*.log*", "sub/c.log", "?.log", "?b.log", "[*a].log", "x.log.gz"}
 
 var c18Ignores = []string{"", `\.gz$`, `^b`, `^c\.`}
 
@@ -71,6 +71,8 @@ func c18MatchComp(p, s string) bool {
 			}
 		}
 		return false
+	case '?':
+		return s != "" && c18MatchComp(p[1:], s[1:])
 	case '[':
 		end := strings.IndexByte(p, ']')
 		if end < 0 || s == "" {
@@ -185,6 +187,7 @@ func runC18x(c c18Case, info *c18Info) *vstat.Failure {
 		}
 	}
 	everTailed := map[string]bool{}
+	missed := false
 	settle := func() {
 		// streams notice deletions and renames
 		for n := range tailed {
@@ -193,10 +196,15 @@ func runC18x(c c18Case, info *c18Info) *vstat.Failure {
 			}
 		}
 		sw.Broadcast()
-		if !await(5*time.Second, func() bool {
+		w1 := 5 * time.Second
+		if missed {
+			w1 = 100 * time.Millisecond
+		}
+		if !await(w1, func() bool {
 			return sw.Waiting() == len(tailed) && expInt("log_count")-logCount0 == int64(len(tailed))
 		}) {
 			info.slow++
+			missed = true
 		}
 		// pattern pollers pick up new matches
 		for n := range tree {
@@ -211,10 +219,18 @@ func runC18x(c c18Case, info *c18Info) *vstat.Failure {
 			everTailed[n] = true
 		}
 		pw.Broadcast()
-		if !await(5*time.Second, func() bool {
+		wait := 5 * time.Second
+		if missed {
+			// a barrier of this case has been missed before (a pattern without a
+			// poller, a match that is not tailed): what follows will show it; do
+			// not spend the deadline again at every step
+			wait = 100 * time.Millisecond
+		}
+		if !await(wait, func() bool {
 			return pw.Waiting() == len(pats) && sw.Waiting() == len(tailed) && expInt("log_count")-logCount0 == int64(len(tailed))
 		}) {
 			info.slow++
+			missed = true
 		}
 	}
 	seen := 0
